@@ -126,7 +126,7 @@ func (e *Engine) evalClause(st *State, fr *Frame, cl *Clause, extra map[string]S
 		return True
 	}
 	c := e.clauseCtx(st, fr, extra)
-	c.inLoop = cl.Kind == "loop" || cl.Kind == "cut"
+	c.inLoop = cl.Kind == "loop" || cl.Kind == "cut" || cl.Kind == "at-call"
 	return c.boolTerm(x)
 }
 
@@ -138,7 +138,7 @@ func (e *Engine) obligationClause(st *State, fr *Frame, name string, cl *Clause,
 		return
 	}
 	c := e.clauseCtx(st, fr, extra)
-	c.inLoop = cl.Kind == "loop" || cl.Kind == "cut"
+	c.inLoop = cl.Kind == "loop" || cl.Kind == "cut" || cl.Kind == "at-call"
 	var items []goalItem
 	nerr := len(e.errors)
 	c.splitGoal(x, nil, "", &items)
